@@ -342,7 +342,9 @@ func (e *engine) registrySection(pool *kslib.Pool, its []*item) {
 		return t, nil
 	})
 	e.runJobs([]job{monJob}, 1)
-	e.monitoringRegistration(its, def)
+	if e.filter == nil || e.filter["registry:monitoring-client"] {
+		e.monitoringRegistration(its, def)
+	}
 }
 
 // monitoringRegistration: one goroutine registers a monitoring client while the others look it
